@@ -129,7 +129,8 @@ class Prop:
             fault = r.random() < 0.1
             item = self._rand_item(r, shape, ninf, finite_only=make_view, flavour=flavour, fault=fault)
             if r.random() < 0.12:
-                item = [({"npi": c} if isinstance(c, int) and r.random() < 0.6 else c) for c in item]
+                item = [({"npi": c, "dt": r.choice(["int64", "int64", "int8", "int16", "int32", "intp"] + (["uint8", "uint16", "uint64"] if c >= 0 else []))}
+                         if isinstance(c, int) and r.random() < 0.6 else c) for c in item]
                 item = [({"np0": c["npi"]} if isinstance(c, dict) and "npi" in c and r.random() < 0.25 else c) for c in item]
             ops.append(["idx", list(tgt), item, len(ops)])
             if make_view and r.random() < 0.3:
